@@ -70,6 +70,11 @@ func (f *FIXUTCTimestamp) Read(bytes []byte) (err error) {
 		err = errors.New("Invalid Value for Timestamp: " + string(bytes))
 	}
 
+	// time.Parse also accepts ',' before the fractional seconds; FIX only allows '.'.
+	if err == nil && len(bytes) > 17 && bytes[17] != '.' {
+		err = errors.New("Invalid Value for Timestamp: " + string(bytes))
+	}
+
 	return
 }
 
